@@ -111,6 +111,25 @@ def shard_pairs(args):
             if want and hashes[i] != hashes[j]:
                 acc.failure("C19:equal_but_hash_differs", case, "")
             acc.outcome("equal" if want else "unequal")
+        # the same pairs again after the length, the text and a slice of both operands were looked at (equal pairs and same-text pairs)
+        for j in range(len(vals)):
+            g = vals[j]
+            want = sf == strs[j]
+            if not (want or f.s == g.s):
+                continue
+            for obj in (f, g):
+                try:
+                    len(obj), obj.s, obj[0:1], obj.width
+                except Exception:  # noqa
+                    pass
+            try:
+                eq, ne, eq2 = (f == g), (f != g), (g == f)
+            except Exception as ex:  # noqa
+                acc.failure("C19:eq_raises:" + type(ex).__name__, {"f": specs[i], "g": specs[j]}, repr(ex))
+                continue
+            acc.transitions += 1
+            if eq is not want or ne is want or eq2 is not want:
+                acc.failure("C19:eq_vs_terminal_string", {"f": specs[i], "g": specs[j], "after": "len(), .s, a slice and .width of both"}, "==:%r !=:%r reversed==:%r, terminal strings equal: %r" % (eq, ne, eq2, want))
         # dictionary / set behaviour
         k = table.get(f)
         if k is None or strs[k] != sf or k != by_str[sf]:
@@ -159,8 +178,25 @@ def shard_repr(args):
     return acc.export()
 
 
+INT_STYLE_SPECS = [
+    (("x", (("bold", 30),)),), (("x", (("underline", 44),)),), (("ab", (("fg", 32), ("invert", 31))),), (("ab", (("bg", 41), ("bold", 41), ("fg", 30))), ("c", (("dark", 2),))),
+    (("x", (("bold", 1),)),), (("x", (("italic", 3.0),)),), (("x", (("blink", 37), ("underline", 4))),),
+]
+
+
 def shard_repr_texts(args):
     tier, seed, idx = args
+    if idx == 0:
+        import curtsies.fmtfuncs as _ff
+
+        acc0 = Acc(seed=seed)
+        for spec in INT_STYLE_SPECS:
+            case = {"f": C.show_spec(spec), "op": "repr", "note": "styles switched on by numbers that are also colour codes"}
+            acc0.case(True, key=("rint", spec), sample=case)
+            repr_check(acc0, C.build(spec), case, vars(_ff))
+        extra = acc0.export()
+    else:
+        extra = None
     import curtsies.fmtfuncs
     from mc.props import c01
 
@@ -178,6 +214,11 @@ def shard_repr_texts(args):
                 acc.case(True, key=("rt", t, pi, second), sample=case)
                 acc.transitions += 1
                 repr_check(acc, C.build(spec), case, ns)
+    if extra is not None:
+        for sig, ent in extra["fail"].items():
+            for c_ in ent["cases"]:
+                acc.failure(sig, c_["case"], c_["message"])
+        acc.n += extra["n"]
     return acc.export()
 
 
@@ -259,6 +300,8 @@ def shard_history(args):
     acc = Acc(seed=seed, sample_stride=4999)
     specs = [C.scale_spec(n, sh) for n, sh in ((40, "runs7"), (64, "unit_runs"), (210, "runs7"), (90, "words"), (333, "wide"), (36, "one"), (130, "unit_runs"), (1500, "runs7"))]
     specs += [sp for sp in C.exotic_specs() if len(sp) >= 8][:6]
+    # run texts that hold escape sequences as ordinary characters (what `f + str(g)` builds), U+009B included
+    specs += [(("x\x1b[31my\x1b[39m", ()),), (("a\x9bbc", (("fg", 31),)), ("d", ())), (("p", (("bold", True),)), ("\x1b[1mq\x1b[0m", ()), ("r\x9b0m", (("bg", 44),))), (("\x1b[", ()), ("31m", (("fg", 32),)))]
     for si in range(idx, len(specs), nshards):
         spec = specs[si]
         shown = {"value": {"characters": sum(len(t) for t, _ in spec), "runs": len(spec), "first_runs": C.show_spec(spec[:3])}}
@@ -338,7 +381,7 @@ def shard_history(args):
 
 def run(ctx):
     rep = Report()
-    for d in ctx.pmap(shard_history, [(ctx.tier, ctx.seed, i, 14) for i in range(14)]):
+    for d in ctx.pmap(shard_history, [(ctx.tier, ctx.seed, i, 18) for i in range(18)]):
         rep.merge(d, "near_miss_strings_and_dead_partners")
     repeat.run_into(ctx, rep, "C19")
     for d in ctx.pmap(shard_scale, [(ctx.tier, ctx.seed, i, 32) for i in range(32)]):
